@@ -5,7 +5,7 @@ HybridEvolutionarySolver (population_initialization / randomize_circuit through 
 
 Clauses of the statement and where they are monitored
   * "with a fixed seed ... the same hall of fame with the same circuits"      solve.reproducible_same_process,
-                                                                              solve.reproducible_across_hashseeds
+                                                                              solve.reproducible_across_hashseeds(_seeded)
   * "hall of fame is ordered by non-decreasing score"                         update_hof.* (unit), solve.generation_invariants
   * "each entry's stored score equals the metric re-evaluated on its circuit" solve.generation_invariants (every generation;
                                                                               deterministic compiler, measurement_determinism=1),
@@ -335,7 +335,8 @@ _SOLVE_SITE = "graphiq.solvers.evolutionary_solver:EvolutionarySolver.solve"
         bound="fixed sample, seed-independent (the ordering clauses can in principle meet known finding C19-G1, update_hof near ties): "
               "targets path2/path3/star4/path4/cycle4 x solvers {evolutionary (1-2 emitters), hybrid} x (n_pop,n_stop,n_hof) in "
               "{(4,3,2),(8,5,3),(6,4,1)} x selection on/off x adaptive on/off x solver seeds 0..3 (quick) / 0..15 (thorough); stabilizer "
-              "compiler (+ density-matrix compiler for the evolutionary solver), measurement_determinism=1",
+              "compiler (+ density-matrix compiler for the evolutionary solver: honesty clauses only, plus - thorough - one fixed "
+              "density-matrix run with all clauses in which G1 shows), measurement_determinism=1",
         clause="after every generation: hof ordered, stored score = metric re-evaluated on stored circuit, best never worse; "
                "on exit result = best entry")
 def invariants_fixed_case(cfg):
@@ -451,7 +452,7 @@ def _bulk(args):
 
 
 @S.item("solve.reproducible_across_hashseeds", site="graphiq.solvers.solver_base:SolverBase.seed",
-        bound="fixed sample, seed-independent (touches known finding C19-G2, set iteration order reaches a random index): targets "
+        bound="fixed sample, seed-independent (the list on which finding C19-G2 was found and repaired): targets "
               "path3, cycle4 x solvers {evolutionary with 1 and 2 emitters, hybrid} x (n_pop,n_stop,n_hof) in {(4,3,2),(8,5,3),(6,4,1)} "
               "x (selection, adaptive) in {off/off, on/on} x solver seeds 0,1 (quick) / 0..5 (thorough): the same config in two fresh "
               "interpreters with PYTHONHASHSEED=1 and 2",
@@ -472,10 +473,9 @@ def repro_proc_case(cfg):
     return None
 
 
-@S.item("solve.reproducible_across_hashseeds_single_emitter", site="graphiq.solvers.solver_base:SolverBase.seed",
-        bound="evolutionary solver with ONE emitter only (its moves never call _select_possible_cnot_position / "
-              "_select_possible_measurement_position, the two sites of known finding C19-G2), all five targets x the three settings x "
-              "selection/adaptive off/off, on/on x VERIF_SEED-dependent solver seeds; PYTHONHASHSEED=1 and 2",
+@S.item("solve.reproducible_across_hashseeds_seeded", site="graphiq.solvers.solver_base:SolverBase.seed",
+        bound="seeded exploration (no known finding concerns reproducibility): all five targets x solvers {evolutionary 1-2 emitters, "
+              "hybrid} x the three settings x selection/adaptive off/off, on/on x VERIF_SEED-dependent solver seeds; PYTHONHASHSEED=1 and 2",
         clause="fixed seed => same hall of fame, whatever the interpreter's hash seed (seeded exploration)")
 def repro_proc_single_case(cfg):
     return repro_proc_case(cfg)
@@ -499,8 +499,19 @@ def configs(seeds, with_dm):
                                        "n_stop": n_stop, "n_hof": n_hof, "sel": sel, "adapt": adapt, "k": 2 + (seed % 2)}
                                 if solver == "evo":
                                     cfg["ne"] = ne
+                                if comp == "dm":
+                                    # density-matrix scores carry 1e-16 rounding noise, i.e. near ties: the ordering clauses would
+                                    # meet known finding C19-G1 at inputs that move with any numerical change in /repo.  Ordering is
+                                    # decided by update_hof alone (backend independent): it is judged on the stabilizer-backend runs
+                                    # (exact ties only), the update_hof unit items and the fixed witness below.
+                                    cfg["order"] = False
                                 out.append(cfg)
     return out
+
+
+# a real run in which known finding C19-G1 shows (density-matrix scores 0.5000000000000001 / ...04 stored out of order)
+G1_WITNESS_RUN = {"solver": "evo", "target": "star4", "compiler": "dm", "seed": 9, "n_pop": 8, "n_stop": 5, "n_hof": 3,
+                  "sel": False, "adapt": True, "k": 3, "ne": 1}
 
 
 def hashseed_fixed_configs(thorough):
@@ -533,7 +544,8 @@ def run(tier, seed):
     S.map("tournament_selection.contract",
           [{"n_pop": n, "k": k, "seed": base + s} for n in (4, 6) for k in (0, 1, 2, 3) for s in range(40 if thorough else 10)])
     # fixed samples (independent of VERIF_SEED; quick is a prefix-by-seed subset of thorough)
-    S.map("solve.generation_invariants", configs(list(range(16 if thorough else 4)), with_dm=True), chunksize=4)
+    S.map("solve.generation_invariants",
+          configs(list(range(16 if thorough else 4)), with_dm=True) + ([G1_WITNESS_RUN] if thorough else []), chunksize=4)
     hs = hashseed_fixed_configs(thorough)
     _prefetch("solve.reproducible_across_hashseeds", hs)
     S.map("solve.reproducible_across_hashseeds", hs, procs=1)
@@ -542,14 +554,13 @@ def run(tier, seed):
     S.map("solve.honest_scores_seeded", hon, chunksize=4)
     rep = configs([base + s for s in range(6 if thorough else 1)], with_dm=True)
     S.map("solve.reproducible_same_process", rep, chunksize=4)
-    single = [c for c in configs([base + s for s in range(4 if thorough else 1)], with_dm=False)
-              if c["solver"] == "evo" and c["ne"] == 1 and c["sel"] == c["adapt"]]
-    _prefetch("solve.reproducible_across_hashseeds_single_emitter", single)
-    S.map("solve.reproducible_across_hashseeds_single_emitter", single, procs=1)
+    seeded = [c for c in configs([base + s for s in range(3 if thorough else 1)], with_dm=False) if c["sel"] == c["adapt"]]
+    _prefetch("solve.reproducible_across_hashseeds_seeded", seeded)
+    S.map("solve.reproducible_across_hashseeds_seeded", seeded, procs=1)
     S.note("hybrid solver is driven with a stabilizer target only: with a density-matrix target TimeReversedSolver.__init__ converts the "
            "caller's target in place (C13) and Infidelity.evaluate then raises UnboundLocalError - not a C19 clause")
     S.note("'stored score = metric re-evaluated' uses solve()'s own pipeline (compile, trace out emitters, metric.evaluate) with the "
            "solver's compiler, measurement_determinism=1; the probabilistic mode is excluded (a statement about one draw)")
-    S.note("solve.reproducible_same_process is seeded: within one process neither known finding can show (G2 needs two hash seeds, "
-           "G1 does not affect reproducibility)")
+    S.note("the reproducibility items are seeded or fixed as stated in their bounds; known finding C19-G1 (update_hof near ties) does not "
+           "affect reproducibility")
     return S
